@@ -486,8 +486,10 @@ def tiling_rule(ctx, facts, cfg):
             cur = lin(r[1])
         if okk and chain and chain[-1][1] is None:
             ctx.ok(R, '%s@%s' % (core.short(p), cfg), {'tiles': ['%s..%s (%s)' % (hshow(r[0]), hshow(r[1]) if r[1] is not None else '', r[2].split(' ')[0]) for r in chain]})
-            if len(chain) < 4:
-                ctx.violation(R, 'floor:%s' % core.short(p), 'expected instance missing: %d regions tile the buffer in %s, floor 4' % (len(chain), p), fn=p, cfg=cfg)
+            # (the chain above runs from position 0 to the open end, so it is never vacuous; some region of it must be filled
+            # from data, and the padding behind needs a second one)
+            if len(chain) < 2 or not any(r[2].startswith('for-loop') for r in chain):
+                ctx.violation(R, 'floor:%s' % core.short(p), 'expected instance missing: %d regions tile the buffer in %s, none of them a loop writing every position, floor 2' % (len(chain), p), fn=p, cfg=cfg)
         else:
             last = chain[-1] if chain else None
             gap_from = hshow(last[1]) if last else '0'
